@@ -199,6 +199,14 @@ def _shard_main(args):
                 prop()
             except Violation:
                 pass  # st.last_violation holds the minimal (last replayed) failing case
+            except BaseException as e:
+                # a failure that does not reproduce when Hypothesis replays the case in the same process (history-dependent
+                # behaviour is exactly that): the recorded violation stands, with the case as first observed
+                import hypothesis.errors as HE
+                if isinstance(e, (HE.Flaky, HE.FlakyFailure)) and st.last_violation is not None:
+                    pass
+                else:
+                    raise
         r = st.result()
         r["wall_s"] = time.time() - t0
         return r
@@ -286,6 +294,15 @@ def run_property(modname, tier, seed, replay=None):
                              "source": "regress/" + fn}
                 break
 
+    if violation is None and hasattr(mod, "prepare"):
+        try:
+            mod.prepare(tier, seed)   # e.g. fresh-process baselines written under /verif/.scratch for the shards to read
+        except Exception as e:
+            write_evidence(pid, tier, seed, getattr(mod, "LEVEL", "exploration"), {"evaluations": 0, "distinct_nontrivial": 0, "rule": mod.RULE,
+                           "samples": []}, [], time.time() - t0, 0)
+            print(f"[{pid}] HARNESS ERROR in prepare (not a violation):\n" + "".join(traceback.format_exception(type(e), e, e.__traceback__)),
+                  file=sys.stderr)
+            return 2
     nshards = int(os.environ.get("VF_SHARDS", getattr(mod, "SHARDS", 16)))
     budget = int(os.environ.get("VF_BUDGET", mod.BUDGET[tier]))
     per = (budget + nshards - 1) // nshards if budget else 0
